@@ -1614,7 +1614,7 @@ pub fn debug_replay(path: &str) {
             }
             SOp::PureT { tf, guess } => {
                 let t = tf * sys.tc;
-                let g = guess.map(|g| pool_v[g % pool_v.len()].clone());
+                let g = guess.and_then(|g| (!pool_v.is_empty()).then(|| pool_v[g % pool_v.len()].clone()));
                 let a = Vle::pure(&sys.eos, t * KELVIN, g.as_ref(), SolverOptions::default()).unwrap();
                 let b = Vle::pure(&sys.eos, t * KELVIN, None, SolverOptions::default()).unwrap();
                 println!("guided     p={:e} residuals {:?}", a.vapor().pressure(Contributions::Total).to_reduced(), resid(&a));
